@@ -348,6 +348,26 @@ func ruleVerifierBoundBeforeValidation(c *Check, p *Prog, rule string) {
 		}
 		return -1
 	}
+	graphs := map[*ssa.Function]*Graph{}
+	selfBound := func(fn *ssa.Function, hv ssa.Value, use ssa.Instruction) bool {
+		g := graphs[fn]
+		if g == nil {
+			g = BuildECFG(p, fn, ExpandOpts{MaxDepth: 0})
+			graphs[fn] = g
+		}
+		isBind := func(x *Node) bool {
+			cc := CallCommonOf(x)
+			if cc == nil || !strings.HasSuffix(CallName(x), "types.SignedHeader).SetCustomVerifier") || len(cc.Args) < 2 || cc.Args[0] != hv {
+				return false
+			}
+			pt := TermOf(cc.Args[1], x.Ctx)
+			return pt.Op == "field" && strings.HasSuffix(cc.Args[1].Type().String(), "types.SignaturePayloadProvider")
+		}
+		if len(g.Select(isBind)) == 0 {
+			return false
+		}
+		return g.MustPrecede(isBind, func(x *Node) bool { return x.Kind == NInstr && x.In == use }) == nil
+	}
 	for changed := true; changed; {
 		changed = false
 		for _, fn := range blockFns {
@@ -359,6 +379,11 @@ func ruleVerifierBoundBeforeValidation(c *Check, p *Prog, rule string) {
 					}
 					for _, h := range headerArgs(fn, call.Common()) {
 						if i := paramIndex(fn, h); i >= 0 {
+							// a function that binds the manager's provider to its parameter before
+							// every validation of it asks nothing of its callers
+							if selfBound(fn, h, in) {
+								continue
+							}
 							if validating[fn] == nil {
 								validating[fn] = map[int]bool{}
 							}
@@ -506,6 +531,44 @@ func ruleFieldAgreement(c *Check, p *Prog, tp *types.Package, goT, pbT string) {
 			for pbField, vs := range litStores(al) {
 				top := prefix + strings.Split(pbField, ".")[0]
 				for _, v := range vs {
+					// a nested message built by a helper of the package (signerToProto(&x.Signer)):
+					// the literals the helper returns, read with its parameters bound to this call
+					if depth < 3 {
+						var cv *ssa.Call
+						switch x := v.(type) {
+						case *ssa.Call:
+							cv = x
+						case *ssa.Extract:
+							if x.Index == 0 {
+								cv, _ = x.Tuple.(*ssa.Call)
+							}
+						}
+						if cv != nil {
+							if callee := cv.Common().StaticCallee(); callee != nil && callee.Blocks != nil && callee.Signature.Recv() == nil && fnPkg(callee) != nil && fnPkg(callee).Pkg.Path() == rootPath+"/types" && strings.Contains(callee.Signature.Results().At(0).Type().String(), "pb/evnode/v1.") {
+								callee := cv.Common().StaticCallee()
+								saved := ctx
+								handled := false
+								for _, hb := range callee.Blocks {
+									hret, ok := hb.Instrs[len(hb.Instrs)-1].(*ssa.Return)
+									if !ok || len(hret.Results) == 0 {
+										continue
+									}
+									if len(hret.Results) == 2 && classifyReturn(hret, 1) == rcA {
+										continue
+									}
+									if inner, ok := hret.Results[0].(*ssa.Alloc); ok {
+										ctx = &Ctx{Parent: saved, Site: cv, Fn: callee, Depth: saved.Depth + 1}
+										pairLit(inner, top+".", depth+1)
+										ctx = saved
+										handled = true
+									}
+								}
+								if handled {
+									continue
+								}
+							}
+						}
+					}
 					// a nested message literal of this package's pb types: pair its fields individually
 					isMsgLit := func(x ssa.Value) (*ssa.Alloc, bool) {
 						inner, ok := x.(*ssa.Alloc)
